@@ -122,8 +122,9 @@ namespace ratio
                 par_types.emplace_back(&i->get_type());
             }
 
-            if (method &m = s->get_method(function_name.id, par_types); m.get_return_type().has_value())
-                return m.invoke(ctx, exprs).value(); // of the kind of the return type..
+            // the body is executed whether or not the method returns something..
+            if (const auto res = s->get_method(function_name.id, par_types).invoke(ctx, exprs); res.has_value())
+                return res.value();
             else
                 return scp.get_core().new_bool(true);
         }
